@@ -179,12 +179,37 @@ static IndexArray IndexArray_sized(Index n) { IndexArray a; a.size = n; a.data =
 '''
 
 
+def sorter_wrappers(report):
+    """Function templates of SelectionRule.h that merely wrap one SortEigenvalue construction (checked against the exact body shape)."""
+    raw, st = X.load(H)
+    out = []
+    for m in re.finditer(r"template\s*<\s*typename\s+Scalar\s*,\s*SortRule\s+(\w+)\s*>\s*(?:inline\s+)?std::vector<(?:Eigen::)?Index>\s+(\w+)\(const\s+Scalar\s*\*\s*(\w+),\s*(?:Eigen::)?Index\s+(\w+)\)\s*\{", st):
+        rule, nm, pv, pl = m.groups()
+        k = X.match_close(st, m.end() - 1)
+        body = " ".join(st[m.end():k].split())
+        want = r"^std::vector<(?:Eigen::)?Index> (\w+); SortEigenvalue<Scalar, %s> (\w+)\(%s, %s\); \2\.swap\(\1\); return \1;$" % (rule, pv, pl)
+        if re.match(want, body):
+            out.append(nm)
+    report["sorter wrappers"] = out
+    return out
+
+
 def _argsort_generalized(report):
     f = X.locate(H, "argsort", params_re=r"Eigen::Index\s+len")
     names = set(["ind"])
 
+    wrappers = sorter_wrappers(report)
+
     def post(b, R):
-        b = R.sub("g:vector-decl", r"std::vector<Index>\s+ind\s*;", "IndexArray ind; ind.data = NULL; ind.size = 0;", b, min_fires=1, max_fires=1)
+        # a wrapper function template whose whole body is `vector ind; SortEigenvalue<Scalar, Rule> s(values, len); s.swap(ind); return ind;` IS the sorted index of
+        # that rule: calls are rewritten to the temporary-sorter form handled below
+        for w in wrappers:
+            b = R.sub("g:wrapper:" + w, r"\b%s<\s*Scalar\s*,\s*SortRule_(\w+)\s*>\(values\.data\(\),\s*len\)" % re.escape(w),
+                      r"SortEigenvalue<Scalar, SortRule_\1>(values.data(), len).index()", b)
+        if re.search(r"std::vector<Index>\s+ind\s*;", b):
+            b = R.sub("g:vector-decl", r"std::vector<Index>\s+ind\s*;", "IndexArray ind; ind.data = NULL; ind.size = 0;", b, min_fires=1, max_fires=1)
+        else:
+            b = R.sub("g:vector-decl-sized", r"std::vector<Index>\s+ind\(([^;()]+)\);", r"IndexArray ind = IndexArray_sized(\1);", b, min_fires=1, max_fires=1)
         b = R.sub("g:sorter-temp", r"SortEigenvalue<\s*Scalar\s*,\s*SortRule_(\w+)\s*>\(values\.data\(\),\s*len\)\.index\(\)", r"SortEigenvalue_index_of(SortRule_\1, values, len)", b)
 
         def named(m):
